@@ -70,7 +70,8 @@ def c12_unit(unit):
         for dt in unit['dts']:
             for i0, i1 in itertools.combinations(range(len(lattice)), 2):
                 t_first, t_last = lattice[i0], lattice[i1]
-                prog, y0, bm = cell_setup(cell, dtype, entropy=unit['entropy'])
+                prog, y0, bm = cell_setup(cell, dtype, entropy=unit['entropy'], t0=min(lattice[0], 0.),
+                                          t1=max(lattice[-1], 1.))
                 gts, gys, _ = reference_trajectory(prog, y0, bm, method, opts, t_first, t_last, dt, dtype)
                 gfl = [float(t) for t in gts]
                 ref_queries = list(zip(gfl[:-1], gfl[1:]))
